@@ -25,6 +25,7 @@ mod c17;
 mod c18;
 mod c19;
 mod c05net;
+mod c08real;
 mod cachemodel;
 mod common;
 mod procpar;
